@@ -21,6 +21,7 @@ package main
 // Only the public API of the library is used.
 
 import (
+	"bytes"
 	"context"
 	"encoding/binary"
 	"errors"
@@ -118,6 +119,10 @@ type mwAct struct {
 type mwStage struct {
 	id   int
 	body []mwAct
+	// lib != "": one of the library's own middlewares instead of a program (not instrumented: it logs
+	// no events): "cdebug" kmipclient.DebugMiddleware, "timeout" / "timeout0" kmipclient.TimeoutMiddleware,
+	// "corr" kmipclient.CorrelationValueMiddleware, "sdebug" kmipserver.DebugMiddleware
+	lib string
 }
 
 type mwOut struct {
@@ -139,17 +144,59 @@ type mwCore struct {
 }
 
 type mwCase struct {
-	kind     string
-	chain    []mwStage
-	chainSrc string
-	core     mwCore
-	coreSrc  string
-	m0       mwMsg
-	c0       int
+	// client | srvmsg | srvitem: one request through one chain;
+	// srvboth: one request through the message chain `chain` AND the item chain `ichain` (ids 101…);
+	// srvitems: one batch of several `items` through the item chain `chain` (m0.tok = header marker)
+	kind      string
+	chain     []mwStage
+	chainSrc  string
+	ichain    []mwStage
+	ichainSrc string
+	core      mwCore
+	coreSrc   string
+	m0        mwMsg
+	c0        int
+	items     []mwMsg
+	hm        int // where the server makes the batch context, probed on the real code: 0 entry, 1 core
 }
 
 func (cs *mwCase) line() string {
+	switch cs.kind {
+	case "srvboth":
+		return fmt.Sprintf("mw.both %s %s %s %d,%d,%d,%d", cs.chainSrc, cs.ichainSrc, cs.coreSrc, cs.m0.tok, cs.c0, cs.m0.op, cs.hm)
+	case "srvitems":
+		p := make([]string, len(cs.items))
+		for i, it := range cs.items {
+			p[i] = it.String()
+		}
+		return fmt.Sprintf("mw.items %s %s %d,%d %s", cs.chainSrc, cs.coreSrc, cs.c0, cs.m0.tok, strings.Join(p, ";"))
+	case "srvmsg":
+		return fmt.Sprintf("mw.run %s %s %s %d,%d,%d,%d", cs.kind, cs.chainSrc, cs.coreSrc, cs.m0.tok, cs.c0, cs.m0.op, cs.hm)
+	}
 	return fmt.Sprintf("mw.run %s %s %s %d,%d,%d", cs.kind, cs.chainSrc, cs.coreSrc, cs.m0.tok, cs.c0, cs.m0.op)
+}
+
+// hdrFor: the request header the handlers' context reports while the core handler of the message
+// chain executes message m (see Kmip.Mw.hdrFn).
+func (cs *mwCase) hdrFor(m mwMsg) int {
+	switch cs.kind {
+	case "client":
+		return 0
+	case "srvmsg", "srvboth":
+		if cs.hm == 1 {
+			return m.tok
+		}
+	}
+	return cs.m0.tok
+}
+
+// coreKind: the kind of the innermost continuation that invokes the handlers.
+func (cs *mwCase) coreKind() string {
+	switch cs.kind {
+	case "srvboth", "srvitems":
+		return "srvitem"
+	}
+	return cs.kind
 }
 
 type mwEvent struct {
@@ -184,6 +231,8 @@ type mwRec struct {
 	netCtx int // real-transport variant: the context token seen at the transport boundary
 	netID  uint64
 	depth  int // nesting depth of the real adapters (runaway recursion guard)
+	// the scripted transport saw a deadline on its context (kmipclient.TimeoutMiddleware upstream)
+	sawDeadline bool
 }
 
 // enter / leave guard the real adapters against a chain that recurses without end (a stack overflow
@@ -278,13 +327,6 @@ func mwFinish(kind string, op0 int, r mwR) mwR {
 	return r
 }
 
-func mwHdr(kind string, m0 mwMsg) int {
-	if kind == "client" {
-		return 0
-	}
-	return m0.tok
-}
-
 // mwInterp runs a stage program against `call` (its continuation at token level) and tells how the
 // stage returns: the return mode and the result of the latest call.
 func mwInterp(st *mwStage, m mwMsg, c int, rec *mwRec, call func(m mwMsg, c int) mwR) (mwRet, mwR) {
@@ -332,33 +374,83 @@ func mwInterp(st *mwStage, m mwMsg, c int, rec *mwRec, call func(m mwMsg, c int)
 
 type mwTokNext func(m mwMsg, c int) mwR
 
-func mwReference(cs *mwCase, budget int) (mwR, []mwEvent, bool) {
-	rec := &mwRec{cs: cs, budget: budget}
-	h := mwHdr(cs.kind, cs.m0)
-	var next mwTokNext = func(m mwMsg, c int) mwR {
-		if !mwRouted(cs.kind, m.op) {
-			return mwCoreResult(cs.kind, mwOut{false, mwLibErr}, m.op) // operation not supported
+// mwLibRef: what the library's own middlewares are documented to do, at token level: all call next
+// exactly once with what they received (the timeout one with a context derived from it);
+// kmipserver.DebugMiddleware returns (nil, err) when next failed.
+func mwLibRef(lib string, inner mwTokNext) mwTokNext {
+	if lib == "sdebug" {
+		return func(m mwMsg, c int) mwR {
+			r := inner(m, c)
+			if r.err != mwNil {
+				return mwR{mwNil, 0, r.err}
+			}
+			return r
 		}
-		return mwCoreResult(cs.kind, rec.handlerRun(mwHandlerOf(cs.kind, m.op), m, c, h), m.op)
 	}
-	for i := len(cs.chain) - 1; i >= 0; i-- {
-		st, inner := &cs.chain[i], next
+	return inner
+}
+
+func mwCompose(rec *mwRec, chain []mwStage, inner mwTokNext) mwTokNext {
+	next := inner
+	for i := len(chain) - 1; i >= 0; i-- {
+		st, in := &chain[i], next
+		if st.lib != "" {
+			next = mwLibRef(st.lib, in)
+			continue
+		}
 		next = func(m mwMsg, c int) mwR {
 			rec.log(mwEvent{k: 'E', id: st.id, m: m, c: c})
-			rt, last := mwInterp(st, m, c, rec, inner)
+			rt, last := mwInterp(st, m, c, rec, in)
 			r := rt.eval(last)
 			rec.log(mwEvent{k: 'X', id: st.id, r: r})
 			return r
 		}
 	}
-	r := next(cs.m0, cs.c0)
-	return mwFinish(cs.kind, cs.m0.op, r), rec.events, rec.over
+	return next
 }
 
-func mwRender(r mwR, evs []mwEvent) string {
+func mwReference(cs *mwCase, budget int) ([]mwR, []mwEvent, bool) {
+	rec := &mwRec{cs: cs, budget: budget}
+	ck := cs.coreKind()
+	handlers := func(h int) mwTokNext {
+		return func(m mwMsg, c int) mwR {
+			if !mwRouted(ck, m.op) {
+				return mwCoreResult(ck, mwOut{false, mwLibErr}, m.op) // operation not supported
+			}
+			return mwCoreResult(ck, rec.handlerRun(mwHandlerOf(ck, m.op), m, c, h), m.op)
+		}
+	}
+	var finals []mwR
+	switch cs.kind {
+	case "srvitems":
+		next := mwCompose(rec, cs.chain, handlers(cs.m0.tok))
+		for _, it := range cs.items {
+			finals = append(finals, mwFinish("srvitem", it.op, next(it, cs.c0)))
+		}
+	case "srvboth":
+		next := mwCompose(rec, cs.chain, func(m mwMsg, c int) mwR {
+			return mwFinish("srvitem", m.op, mwCompose(rec, cs.ichain, handlers(cs.hdrFor(m)))(m, c))
+		})
+		finals = []mwR{mwFinish("srvmsg", cs.m0.op, next(cs.m0, cs.c0))}
+	default:
+		next := mwCompose(rec, cs.chain, func(m mwMsg, c int) mwR { return handlers(cs.hdrFor(m))(m, c) })
+		finals = []mwR{mwFinish(cs.kind, cs.m0.op, next(cs.m0, cs.c0))}
+	}
+	return finals, rec.events, rec.over
+}
+
+func mwRender(rs []mwR, evs []mwEvent) string {
 	var sb strings.Builder
 	sb.WriteString("ok ")
-	sb.WriteString(r.String())
+	if len(rs) == 0 {
+		sb.WriteByte('-')
+	}
+	for i, r := range rs {
+		if i > 0 {
+			sb.WriteByte(';')
+		}
+		sb.WriteString(r.String())
+	}
 	sb.WriteByte(' ')
 	if len(evs) == 0 {
 		sb.WriteByte('-')
@@ -372,54 +464,72 @@ func mwRender(r mwR, evs []mwEvent) string {
 	return sb.String()
 }
 
-// mwCheckNested parses a trace against the grammar of well-nested executions of `n` stages; it does
-// not know the stage programs. Returns "" or (oracle, description).
-func mwCheckNested(cs *mwCase, final mwR, evs []mwEvent) (string, string) {
+// mwCheckNested parses a trace against the grammar of well-nested executions of the instrumented
+// stages; it does not know the stage programs. Returns "" or (oracle, description), and separately a
+// description of the first handler invocation whose context reported a header other than the one of
+// the message being executed.
+func mwCheckNested(cs *mwCase, finals []mwR, evs []mwEvent) (oracle, msg, hdr string) {
 	pos := 0
-	n := len(cs.chain)
-	var oracle, msg string
 	fail := func(o, format string, a ...any) {
 		if oracle == "" {
 			oracle, msg = o, fmt.Sprintf("event %d: ", pos)+fmt.Sprintf(format, a...)
 		}
 	}
-	var run func(level int, m mwMsg, c int) mwR
-	run = func(level int, m mwMsg, c int) mwR {
-		if oracle != "" {
-			return mwR{}
-		}
-		if level == n {
-			// the innermost continuation was given (m, c): it must act on THAT message
-			if !mwRouted(cs.kind, m.op) {
-				if pos < len(evs) && evs[pos].k == 'K' {
+	ck := cs.coreKind()
+	// the innermost continuation was given (m, c) while message `exec` is being executed
+	handlers := func(exec mwMsg, isMsgLevel bool) mwTokNext {
+		return func(m mwMsg, c int) mwR {
+			if !mwRouted(ck, m.op) {
+				// (a handler event for THIS message: with an empty chain the next event may be the handler
+				// invocation of the following item of the batch)
+				if pos < len(evs) && evs[pos].k == 'K' && evs[pos].m == m {
 					fail("substitution", "handler %d ran although the message passed on requests operation %d, which has no handler", evs[pos].hd, m.op)
 				}
-				return mwCoreResult(cs.kind, mwOut{false, mwLibErr}, m.op)
+				return mwCoreResult(ck, mwOut{false, mwLibErr}, m.op)
 			}
 			if pos >= len(evs) || evs[pos].k != 'K' {
 				got := "the end of the trace"
 				if pos < len(evs) {
 					got = evs[pos].String()
 				}
-				fail("substitution", "no handler ran on the message passed on (%s, operation %d has handler %d); got %s", m, m.op, mwHandlerOf(cs.kind, m.op), got)
+				fail("substitution", "no handler ran on the message passed on (%s, operation %d has handler %d); got %s", m, m.op, mwHandlerOf(ck, m.op), got)
 				return mwR{}
 			}
 			e := evs[pos]
-			if e.hd != mwHandlerOf(cs.kind, m.op) {
-				fail("substitution", "handler %d ran, but the message passed on requests operation %d (handler %d)", e.hd, m.op, mwHandlerOf(cs.kind, m.op))
+			if e.hd != mwHandlerOf(ck, m.op) {
+				fail("substitution", "handler %d ran, but the message passed on requests operation %d (handler %d)", e.hd, m.op, mwHandlerOf(ck, m.op))
 			}
 			if e.m != m || e.c != c {
 				fail("substitution", "handler received %s:%d, its predecessor passed %s:%d", e.m, e.c, m, c)
 			}
+			if isMsgLevel && e.h != exec.tok && hdr == "" {
+				hdr = fmt.Sprintf("event %d: handler %d executes (an item of) the message with header marker %d, passed on by the last message middleware, but GetRequestHeader(ctx) reports the header with marker %d (the message HandleRequest was called with)", pos, e.hd, exec.tok, e.h)
+			}
 			pos++
-			return mwCoreResult(cs.kind, e.out, m.op)
+			return mwCoreResult(ck, e.out, m.op)
+		}
+	}
+	var run func(chain []mwStage, level int, m mwMsg, c int, inner mwTokNext) mwR
+	run = func(chain []mwStage, level int, m mwMsg, c int, inner mwTokNext) mwR {
+		if oracle != "" {
+			return mwR{}
+		}
+		for level < len(chain) && chain[level].lib != "" {
+			// the library's own middlewares are not instrumented: what they pass on is checked by the
+			// reference interpreter only (mwLibRef)
+			in, lib := inner, chain[level].lib
+			rest := level + 1
+			return mwLibRef(lib, func(m mwMsg, c int) mwR { return run(chain, rest, m, c, in) })(m, c)
+		}
+		if level == len(chain) {
+			return inner(m, c)
 		}
 		if pos >= len(evs) {
-			fail("order", "trace ends where stage %d should start", level+1)
+			fail("order", "trace ends where stage %d should start", chain[level].id)
 			return mwR{}
 		}
 		e := evs[pos]
-		id := cs.chain[level].id
+		id := chain[level].id
 		if e.k != 'E' || e.id != id {
 			fail("order", "expected stage %d to be entered, got %s", id, e)
 			return mwR{}
@@ -437,7 +547,7 @@ func mwCheckNested(cs *mwCase, final mwR, evs []mwEvent) (string, string) {
 			switch {
 			case e.k == 'C' && e.id == id:
 				pos++
-				r := run(level+1, e.m, e.c)
+				r := run(chain, level+1, e.m, e.c, inner)
 				if oracle != "" {
 					return mwR{}
 				}
@@ -458,24 +568,50 @@ func mwCheckNested(cs *mwCase, final mwR, evs []mwEvent) (string, string) {
 		}
 		return mwR{}
 	}
-	r := run(0, cs.m0, cs.c0)
+	var got []mwR
+	switch cs.kind {
+	case "srvitems":
+		for _, it := range cs.items {
+			got = append(got, mwFinish("srvitem", it.op, run(cs.chain, 0, it, cs.c0, handlers(cs.m0, true))))
+		}
+	case "srvboth":
+		got = []mwR{mwFinish("srvmsg", cs.m0.op, run(cs.chain, 0, cs.m0, cs.c0, func(m mwMsg, c int) mwR {
+			return mwFinish("srvitem", m.op, run(cs.ichain, 0, m, c, handlers(m, true)))
+		}))}
+	default:
+		got = []mwR{mwFinish(cs.kind, cs.m0.op, run(cs.chain, 0, cs.m0, cs.c0, func(m mwMsg, c int) mwR {
+			return handlers(m, cs.kind == "srvmsg")(m, c)
+		}))}
+	}
 	if oracle == "" && pos != len(evs) {
 		fail("order", "%d events after the end of the outermost stage", len(evs)-pos)
 	}
-	if oracle == "" && mwFinish(cs.kind, cs.m0.op, r) != final {
-		fail("entry-point", "outermost stage returned %s but the entry point returned %s", r, final)
+	if oracle == "" {
+		if len(got) != len(finals) {
+			fail("entry-point", "%d results for %d requests", len(finals), len(got))
+		} else {
+			for i := range got {
+				if got[i] != finals[i] {
+					fail("entry-point", "outermost stage returned %s (after the entry point's own treatment) for request %d but the entry point returned %s", got[i], i, finals[i])
+					break
+				}
+			}
+		}
 	}
-	return oracle, msg
+	return oracle, msg, hdr
 }
 
 // mwStraightProduct: for chains of unconditional programs that keep a routed operation, the product
 // of the numbers of calls.
 func mwStraightProduct(cs *mwCase) (int, bool) {
-	if !mwRouted(cs.kind, cs.m0.op) {
+	if cs.kind == "srvitems" || !mwRouted(cs.kind, cs.m0.op) {
 		return 0, false
 	}
 	p := 1
-	for _, st := range cs.chain {
+	for _, st := range append(append([]mwStage{}, cs.chain...), cs.ichain...) {
+		if st.lib != "" {
+			continue
+		}
 		k := 0
 	body:
 		for _, a := range st.body {
@@ -499,33 +635,34 @@ func mwStraightProduct(cs *mwCase) (int, bool) {
 type mwCtxKey struct{}
 type mwRecKey struct{}
 
-type mwErr struct{ code int }
-
-func (e mwErr) Error() string { return "E" + strconv.Itoa(e.code) }
-
-func mwErrTok(err error) int {
-	if err == nil {
-		return mwNil
-	}
-	var e mwErr
-	if errors.As(err, &e) {
-		return e.code
-	}
-	return mwLibErr
-}
+// Scripted errors travel as kmipserver.Error values whose REASON carries the code: the reason is what
+// the library must copy into a failed response item (errors.As in handleBatchItemError), and what a
+// client gets back in ResultReason; the ResultMessage text is never read (the library is free to stop
+// echoing error texts). Codes 0..998; anything else (errors made by the library itself: operation
+// not supported, no response item, transport failures) reads as mwLibErr.
+const mwReasonBase = 0x70000000
 
 func mwMkErr(tok int) error {
 	if tok == mwNil {
 		return nil
 	}
-	return mwErr{tok}
+	return kmipserver.Error{Reason: kmip.ResultReason(mwReasonBase + tok), Message: "scripted"}
 }
 
-func mwMsgCode(s string) int {
-	if strings.HasPrefix(s, "E") {
-		if v, err := strconv.Atoi(s[1:]); err == nil {
-			return v
-		}
+func mwReasonCode(r kmip.ResultReason) int {
+	if v := int64(r) - mwReasonBase; v >= 0 && v < mwLibErr {
+		return int(v)
+	}
+	return mwLibErr
+}
+
+func mwErrTok(err error) int {
+	if err == nil {
+		return mwNil
+	}
+	var e kmipserver.Error
+	if errors.As(err, &e) {
+		return mwReasonCode(e.Reason)
 	}
 	return mwLibErr
 }
@@ -625,6 +762,15 @@ func mwMkReq(m mwMsg) *kmip.RequestMessage {
 	}
 }
 
+// mwMkBatchReq builds a request message with header marker h and one item per element of items.
+func mwMkBatchReq(h int, items []mwMsg) *kmip.RequestMessage {
+	msg := &kmip.RequestMessage{Header: kmip.RequestHeader{ProtocolVersion: kmip.V1_4, BatchCount: int32(len(items)), ClientCorrelationValue: strconv.Itoa(h)}}
+	for _, it := range items {
+		msg.BatchItem = append(msg.BatchItem, *mwMkItemReq(it))
+	}
+	return msg
+}
+
 func mwItemReqMsg(bi *kmip.RequestBatchItem, rec *mwRec) mwMsg {
 	if bi == nil {
 		return mwMsg{-8, 8}
@@ -657,8 +803,8 @@ func mwMkItemResp(tok, op int) *kmip.ResponseBatchItem {
 	switch {
 	case tok >= mwFailBase:
 		bi.ResultStatus = kmip.ResultStatusOperationFailed
-		bi.ResultReason = kmip.ResultReasonGeneralFailure
-		bi.ResultMessage = "E" + strconv.Itoa(tok-mwFailBase)
+		bi.ResultReason = kmip.ResultReason(mwReasonBase + tok - mwFailBase)
+		bi.ResultMessage = "scripted failure"
 	case tok > 0:
 		s := strconv.Itoa(tok)
 		switch op {
@@ -680,7 +826,7 @@ func mwItemRespTok(bi *kmip.ResponseBatchItem) (int, int) {
 	}
 	op := mwOpOf(bi.Operation)
 	if bi.ResultStatus == kmip.ResultStatusOperationFailed {
-		return mwFailBase + mwMsgCode(bi.ResultMessage), op
+		return mwFailBase + mwReasonCode(bi.ResultReason), op
 	}
 	switch p := bi.ResponsePayload.(type) {
 	case *payloads.ActivateResponsePayload:
@@ -832,7 +978,7 @@ func (hdl mwHandler) HandleOperation(ctx context.Context, req kmip.OperationPayl
 	if out.ok {
 		return mwMkItemResp(out.v, m.op).ResponsePayload, nil
 	}
-	return nil, mwErr{out.v}
+	return nil, mwMkErr(out.v)
 }
 
 // mwChain is one real chain shared by all the requests of a group.
@@ -841,6 +987,7 @@ type mwChain struct {
 	client *kmipclient.Client // client chain ending in the scripted transport (a last middleware)
 	net    *mwNet             // client chain ending in the REAL transport, served by a scripted responder
 	exec   *kmipserver.BatchExecutor
+	probe  *mwLibProbe
 }
 
 // mwNet: a client whose chain ends in Client.doRountrip over a net.Pipe. The other end of the pipe
@@ -897,18 +1044,111 @@ func (n *mwNet) adapter(next kmipclient.Next, ctx context.Context, msg *kmip.Req
 		return nil, err // transport failure: not a token error, shows as code 999
 	}
 	if tok, _ := mwRespTok(resp); tok >= mwFailBase {
-		return nil, mwErr{tok - mwFailBase}
+		return nil, mwMkErr(tok - mwFailBase)
 	}
 	return resp, nil
 }
 
-func mwBuild(kind string, chain []mwStage) (*mwChain, error) {
-	ch := &mwChain{kind: kind}
+// mwLibProbe: what the engine observes of the library's own middlewares from outside.
+type mwLibProbe struct {
+	mu        sync.Mutex
+	debugOut  bytes.Buffer // what the Debug middlewares wrote
+	corrCalls int          // calls of the correlation value generator (the harness's messages carry a value)
+}
+
+// Write: the Debug middlewares of concurrent requests share the writer.
+func (p *mwLibProbe) Write(b []byte) (int, error) {
+	p.mu.Lock()
+	defer p.mu.Unlock()
+	return p.debugOut.Write(b)
+}
+
+type mwDeadlineKey struct{}
+
+// the registration shapes (C19: "middlewares run in registration order" however they were registered)
+const (
+	mwShapeDefault  = iota // client: ONE WithMiddlewares(all...); server: one Use / BatchItemUse per stage
+	mwShapeVariadic        // server: ONE variadic Use(all...) / BatchItemUse(all...); client: one option per stage
+	mwShapeSplit           // the list split in two calls / options at every position (rotating)
+	mwShapeClone           // client: CloneCtx of the client built with the default shape
+	mwShapeCluster         // client: DialClusterContext instead of DialContext
+	mwShapeThree           // three calls / options: first stage, the middle ones, last stage
+	mwNShapes
+)
+
+func mwSplitPoints(n, shape, rot int) []int {
+	switch shape {
+	case mwShapeVariadic:
+		return nil
+	case mwShapeSplit:
+		if n == 0 {
+			return []int{0}
+		}
+		return []int{rot % (n + 1)}
+	case mwShapeThree:
+		if n >= 2 {
+			return []int{1, n - 1}
+		}
+		return []int{0, n}
+	}
+	return nil
+}
+
+// mwGroups cuts list at the given increasing positions.
+func mwCut[T any](list []T, at []int) [][]T {
+	var out [][]T
+	prev := 0
+	for _, p := range at {
+		out = append(out, list[prev:p])
+		prev = p
+	}
+	return append(out, list[prev:])
+}
+
+func mwClientLib(lib string, probe *mwLibProbe) kmipclient.Middleware {
+	switch lib {
+	case "cdebug":
+		return kmipclient.DebugMiddleware(probe, nil)
+	case "timeout":
+		return kmipclient.TimeoutMiddleware(time.Hour)
+	case "timeout0":
+		return kmipclient.TimeoutMiddleware(0)
+	case "corr":
+		return kmipclient.CorrelationValueMiddleware(func() string {
+			probe.mu.Lock()
+			probe.corrCalls++
+			probe.mu.Unlock()
+			return "generated"
+		})
+	}
+	panic("harness: unknown client library middleware " + lib)
+}
+
+func mwBuild(cs *mwCase, shape, rot int) (*mwChain, error) {
+	kind, chain := cs.kind, cs.chain
+	ch := &mwChain{kind: kind, probe: &mwLibProbe{}}
+	srvMsgStage := func(st *mwStage) kmipserver.Middleware {
+		if st.lib == "sdebug" {
+			return kmipserver.DebugMiddleware(ch.probe, nil)
+		}
+		return func(next kmipserver.Next, ctx context.Context, msg *kmip.RequestMessage) (*kmip.ResponseMessage, error) {
+			return mwMsgStage(st, next, ctx, msg)
+		}
+	}
+	srvItemStage := func(st *mwStage) kmipserver.BatchItemMiddleware {
+		return func(next kmipserver.BatchItemNext, ctx context.Context, bi *kmip.RequestBatchItem) (*kmip.ResponseBatchItem, error) {
+			return mwItemStage(st, next, ctx, bi)
+		}
+	}
 	switch kind {
 	case "client":
 		var mws []kmipclient.Middleware
 		for i := range chain {
 			st := &chain[i]
+			if st.lib != "" {
+				mws = append(mws, mwClientLib(st.lib, ch.probe))
+				continue
+			}
 			mws = append(mws, func(next kmipclient.Next, ctx context.Context, msg *kmip.RequestMessage) (*kmip.ResponseMessage, error) {
 				return mwMsgStage(st, next, ctx, msg)
 			})
@@ -917,11 +1157,14 @@ func mwBuild(kind string, chain []mwStage) (*mwChain, error) {
 		mws = append(mws, func(_ kmipclient.Next, ctx context.Context, msg *kmip.RequestMessage) (*kmip.ResponseMessage, error) {
 			rec := mwRecOf(ctx)
 			m := mwReqMsg(msg, rec)
+			if _, ok := ctx.Deadline(); ok {
+				rec.sawDeadline = true
+			}
 			out := rec.handlerRun(0, m, mwCtxTok(ctx), 0)
 			if out.ok {
 				return mwMkResp(out.v, m.op), nil
 			}
-			return nil, mwErr{out.v}
+			return nil, mwMkErr(out.v)
 		})
 		// a *Client needs a connection: one end of a pipe whose other end is closed at once, so that a
 		// chain that (wrongly) reaches the real transport fails instead of blocking.
@@ -930,8 +1173,36 @@ func mwBuild(kind string, chain []mwStage) (*mwChain, error) {
 			_ = b.Close()
 			return a, nil
 		}
-		cl, err := kmipclient.DialContext(context.Background(), "pipe",
-			kmipclient.WithMiddlewares(mws...), kmipclient.EnforceVersion(kmip.V1_4), kmipclient.WithDialerUnsafe(dialer))
+		options := func(mws []kmipclient.Middleware, d kmipclient.DialerFunc) []kmipclient.Option {
+			opts := []kmipclient.Option{kmipclient.EnforceVersion(kmip.V1_4), kmipclient.WithDialerUnsafe(d)}
+			switch shape {
+			case mwShapeVariadic: // one option per middleware
+				for _, m := range mws {
+					opts = append(opts, kmipclient.WithMiddlewares(m))
+				}
+			case mwShapeSplit, mwShapeThree:
+				for _, part := range mwCut(mws, mwSplitPoints(len(mws), shape, rot)) {
+					opts = append(opts, kmipclient.WithMiddlewares(part...))
+				}
+			default:
+				opts = append(opts, kmipclient.WithMiddlewares(mws...))
+			}
+			return opts
+		}
+		dial := func(mws []kmipclient.Middleware, d kmipclient.DialerFunc) (*kmipclient.Client, error) {
+			if shape == mwShapeCluster {
+				opts := append(options(mws, d), kmipclient.WithRetryTimeout(time.Second))
+				return kmipclient.DialClusterContext(context.Background(), []string{"pipe-a", "pipe-b"}, opts...)
+			}
+			cl, err := kmipclient.DialContext(context.Background(), "pipe", options(mws, d)...)
+			if err == nil && shape == mwShapeClone {
+				clone, err2 := cl.CloneCtx(context.Background())
+				_ = cl.Close()
+				return clone, err2
+			}
+			return cl, err
+		}
+		cl, err := dial(mws, dialer)
 		if err != nil {
 			return nil, err
 		}
@@ -944,27 +1215,47 @@ func mwBuild(kind string, chain []mwStage) (*mwChain, error) {
 			go n.serve(b)
 			return a, nil
 		}
-		if n.client, err = kmipclient.DialContext(context.Background(), "pipe",
-			kmipclient.WithMiddlewares(netMws...), kmipclient.EnforceVersion(kmip.V1_4), kmipclient.WithDialerUnsafe(netDialer)); err != nil {
+		if n.client, err = dial(netMws, netDialer); err != nil {
 			_ = cl.Close()
 			return nil, err
 		}
 		ch.net = n
-	case "srvmsg":
+	case "srvmsg", "srvitem", "srvitems", "srvboth":
 		ch.exec = kmipserver.NewBatchExecutor()
-		for i := range chain {
-			st := &chain[i]
-			ch.exec.Use(func(next kmipserver.Next, ctx context.Context, msg *kmip.RequestMessage) (*kmip.ResponseMessage, error) {
-				return mwMsgStage(st, next, ctx, msg)
-			})
+		var msgMws []kmipserver.Middleware
+		var itemMws []kmipserver.BatchItemMiddleware
+		ichain := cs.ichain
+		if kind == "srvitem" || kind == "srvitems" {
+			ichain = chain
+		} else {
+			for i := range chain {
+				msgMws = append(msgMws, srvMsgStage(&chain[i]))
+			}
 		}
-	case "srvitem":
-		ch.exec = kmipserver.NewBatchExecutor()
-		for i := range chain {
-			st := &chain[i]
-			ch.exec.BatchItemUse(func(next kmipserver.BatchItemNext, ctx context.Context, bi *kmip.RequestBatchItem) (*kmip.ResponseBatchItem, error) {
-				return mwItemStage(st, next, ctx, bi)
-			})
+		for i := range ichain {
+			itemMws = append(itemMws, srvItemStage(&ichain[i]))
+		}
+		switch shape {
+		case mwShapeDefault:
+			// interleave the registration of the two chains: they are independent lists
+			for i := 0; i < len(msgMws) || i < len(itemMws); i++ {
+				if i < len(itemMws) {
+					ch.exec.BatchItemUse(itemMws[i])
+				}
+				if i < len(msgMws) {
+					ch.exec.Use(msgMws[i])
+				}
+			}
+		case mwShapeSplit, mwShapeThree:
+			for _, part := range mwCut(msgMws, mwSplitPoints(len(msgMws), shape, rot)) {
+				ch.exec.Use(part...)
+			}
+			for _, part := range mwCut(itemMws, mwSplitPoints(len(itemMws), shape, rot+1)) {
+				ch.exec.BatchItemUse(part...)
+			}
+		default: // one variadic call each
+			ch.exec.Use(msgMws...)
+			ch.exec.BatchItemUse(itemMws...)
 		}
 	default:
 		return nil, fmt.Errorf("unknown kind %q", kind)
@@ -987,25 +1278,36 @@ func (ch *mwChain) close() {
 }
 
 // run executes one request on the real chain and renders the canonical answer.
-func (ch *mwChain) run(cs *mwCase, yield, realTransport bool) (answer string, rec *mwRec, final mwR, panicked string) {
+func (ch *mwChain) run(cs *mwCase, yield, realTransport bool) (answer string, rec *mwRec, finals []mwR, panicked string) {
 	rec = &mwRec{cs: cs, yield: yield}
 	ctx := context.WithValue(context.WithValue(context.Background(), mwRecKey{}, rec), mwCtxKey{}, cs.c0)
-	final, panicked = guard("mw", func() mwR {
+	finals, panicked = guard("mw", func() []mwR {
 		if realTransport {
 			rec.netID = ch.net.nextID.Add(1)
 			ch.net.recs.Store(rec.netID, rec)
 			defer ch.net.recs.Delete(rec.netID)
-			return mwMsgR(ch.net.client.Roundtrip(ctx, mwMkReq(cs.m0)))
+			return []mwR{mwMsgR(ch.net.client.Roundtrip(ctx, mwMkReq(cs.m0)))}
 		}
 		if ch.client != nil {
-			return mwMsgR(ch.client.Roundtrip(ctx, mwMkReq(cs.m0)))
+			return []mwR{mwMsgR(ch.client.Roundtrip(ctx, mwMkReq(cs.m0)))}
 		}
-		return mwMsgR(ch.exec.HandleRequest(ctx, mwMkReq(cs.m0)), nil)
+		if cs.kind == "srvitems" {
+			resp := ch.exec.HandleRequest(ctx, mwMkBatchReq(cs.m0.tok, cs.items))
+			if resp == nil {
+				return []mwR{{mwNil, 0, mwNil}}
+			}
+			var rs []mwR
+			for i := range resp.BatchItem {
+				rs = append(rs, mwItemR(&resp.BatchItem[i], nil))
+			}
+			return rs
+		}
+		return []mwR{mwMsgR(ch.exec.HandleRequest(ctx, mwMkReq(cs.m0)), nil)}
 	})
 	if panicked != "" {
-		return "panic " + panicKey(panicked), rec, final, panicked
+		return "panic " + panicKey(panicked), rec, finals, panicked
 	}
-	return mwRender(final, rec.events), rec, final, ""
+	return mwRender(finals, rec.events), rec, finals, ""
 }
 
 // ---------------------------------------------------------------------------------------------
@@ -1080,13 +1382,15 @@ func mwParseAct(s string) (mwAct, error) {
 	return mwAct{}, fmt.Errorf("bad action %q", s)
 }
 
-func mwParseChain(s string) ([]mwStage, error) {
+func mwParseChain(s string) ([]mwStage, error) { return mwParseChainFrom(s, 1) }
+
+func mwParseChainFrom(s string, first int) ([]mwStage, error) {
 	if s == "-" {
 		return nil, nil
 	}
 	var chain []mwStage
 	for i, src := range strings.Split(s, "/") {
-		st := mwStage{id: i + 1}
+		st := mwStage{id: i + first}
 		if src != "_" {
 			for _, a := range strings.Split(src, ".") {
 				act, err := mwParseAct(a)
@@ -1142,7 +1446,19 @@ func mwParseCore(s string) (mwCore, error) {
 }
 
 func mwNewCase(kind, chainSrc, coreSrc string, m0 mwMsg, c0 int) (*mwCase, error) {
+	return mwNewCaseX(kind, chainSrc, "-", coreSrc, m0, c0, nil)
+}
+
+// mwHdrMode: where the real code makes the batch context (set by the engine's probe before any case
+// is built; replayed lines are run with the mode of the code they are replayed against).
+var mwHdrMode int
+
+func mwNewCaseX(kind, chainSrc, ichainSrc, coreSrc string, m0 mwMsg, c0 int, items []mwMsg) (*mwCase, error) {
 	chain, err := mwParseChain(chainSrc)
+	if err != nil {
+		return nil, err
+	}
+	ichain, err := mwParseChainFrom(ichainSrc, 101)
 	if err != nil {
 		return nil, err
 	}
@@ -1150,42 +1466,84 @@ func mwNewCase(kind, chainSrc, coreSrc string, m0 mwMsg, c0 int) (*mwCase, error
 	if err != nil {
 		return nil, err
 	}
-	if kind != "client" && kind != "srvmsg" && kind != "srvitem" {
+	switch kind {
+	case "client", "srvmsg", "srvitem", "srvboth", "srvitems":
+	default:
 		return nil, fmt.Errorf("unknown kind %q", kind)
 	}
-	if m0.op < 1 || m0.op > 3 {
-		return nil, fmt.Errorf("the harness realises operations 1..3 only, not %d", m0.op)
+	ops := []int{m0.op}
+	for _, it := range items {
+		ops = append(ops, it.op)
 	}
-	for _, st := range chain {
+	for _, st := range append(append([]mwStage{}, chain...), ichain...) {
 		for _, a := range st.body {
-			if a.op == "o" && (a.v < 1 || a.v > 3) {
-				return nil, fmt.Errorf("the harness realises operations 1..3 only, not %d", a.v)
+			if a.op == "o" {
+				ops = append(ops, a.v)
 			}
 		}
 	}
-	return &mwCase{kind: kind, chain: chain, chainSrc: chainSrc, core: core, coreSrc: coreSrc, m0: m0, c0: c0}, nil
+	for _, op := range ops {
+		if op < 1 || op > 3 {
+			return nil, fmt.Errorf("the harness realises operations 1..3 only, not %d", op)
+		}
+	}
+	return &mwCase{kind: kind, chain: chain, chainSrc: chainSrc, ichain: ichain, ichainSrc: ichainSrc, core: core, coreSrc: coreSrc,
+		m0: m0, c0: c0, items: items, hm: mwHdrMode}, nil
+}
+
+func mwParseNats(s string, min, max int) ([]int, error) {
+	parts := strings.Split(s, ",")
+	if len(parts) < min || len(parts) > max {
+		return nil, fmt.Errorf("bad numbers %q", s)
+	}
+	out := make([]int, len(parts))
+	for i, p := range parts {
+		v, err := mwParseNat(p)
+		if err != nil {
+			return nil, fmt.Errorf("bad numbers %q", s)
+		}
+		out[i] = v
+	}
+	return out, nil
 }
 
 func mwParseLine(l string) (*mwCase, error) {
 	f := strings.Fields(l)
-	if len(f) < 4 || f[0] != "mw.run" {
-		return nil, fmt.Errorf("not an mw.run line")
-	}
-	ini := []int{1, 1, 1}
-	if len(f) >= 5 {
-		parts := strings.Split(f[4], ",")
-		if len(parts) < 2 || len(parts) > 3 {
-			return nil, fmt.Errorf("bad initial tokens %q", f[4])
+	switch {
+	case len(f) == 5 && f[0] == "mw.both":
+		ini, err := mwParseNats(f[4], 3, 4)
+		if err != nil {
+			return nil, err
 		}
-		for i, p := range parts {
-			v, err := mwParseNat(p)
-			if err != nil {
-				return nil, fmt.Errorf("bad initial tokens %q", f[4])
+		return mwNewCaseX("srvboth", f[1], f[2], f[3], mwMsg{ini[0], ini[2]}, ini[1], nil)
+	case len(f) == 5 && f[0] == "mw.items":
+		ini, err := mwParseNats(f[3], 2, 2)
+		if err != nil {
+			return nil, err
+		}
+		var items []mwMsg
+		for _, p := range strings.Split(f[4], ";") {
+			t, o, ok := strings.Cut(p, "@")
+			tok, e1 := mwParseNat(t)
+			op, e2 := mwParseNat(o)
+			if !ok || e1 != nil || e2 != nil {
+				return nil, fmt.Errorf("bad item %q", p)
 			}
-			ini[i] = v
+			items = append(items, mwMsg{tok, op})
 		}
+		return mwNewCaseX("srvitems", f[1], "-", f[2], mwMsg{ini[1], 1}, ini[0], items)
+	case len(f) >= 4 && f[0] == "mw.run":
+		ini := []int{1, 1, 1}
+		if len(f) >= 5 {
+			got, err := mwParseNats(f[4], 2, 4)
+			if err != nil {
+				return nil, err
+			}
+			copy(ini, got[:min(len(got), 3)])
+		}
+		return mwNewCase(f[1], f[2], f[3], mwMsg{ini[0], ini[2]}, ini[1])
 	}
-	return mwNewCase(f[1], f[2], f[3], mwMsg{ini[0], ini[2]}, ini[1])
+	return nil, fmt.Errorf("not an mw line")
 }
 
 // ---------------------------------------------------------------------------------------------
@@ -1194,7 +1552,7 @@ func mwParseLine(l string) (*mwCase, error) {
 func init() {
 	register(&Engine{
 		Name: "mw",
-		Rule: "middleware chains as data: ALL chains of length 0..3 (quick) / 0..4 (thorough) over an alphabet of stage programs (pass-through, tag message and context, call twice / three times, retry while failed, short-circuit with a response / an error / (nil,nil), ignore or rewrite the inner result, return (nil,err), swallow the error, turn success into error, constant message / context, REWRITE THE OPERATION of the message to another routed operation / to an unrouted one, call with the original then with the rewritten operation) x handler scripts (always ok, fail n times then ok, always fail, refuse the unmodified message, alternate) x initial operation (two routed to distinct handlers, one unrouted) x {client chain, server message chain, server batch item chain}, plus random chains of length 4..8 of random programs; every group of requests is run sequentially and then concurrently from 8 goroutines sharing the chain; distinct = distinct line; nontrivial = chain with at least two stages or a stage calling next other than once",
+		Rule: "(see also: batches of 2..5 items through every item chain; both server chains installed together; every chain of length <= 2 and a fifth of the longer ones registered in another way — one variadic call, one call per stage, split in two or three calls, CloneCtx, DialClusterContext — and with one of the library's own middlewares inserted; Client.Request / Batch / version negotiation through an installed chain) middleware chains as data: ALL chains of length 0..3 (quick) / 0..4 (thorough) over an alphabet of stage programs (pass-through, tag message and context, call twice / three times, retry while failed, short-circuit with a response / an error / (nil,nil), ignore or rewrite the inner result, return (nil,err), swallow the error, turn success into error, constant message / context, REWRITE THE OPERATION of the message to another routed operation / to an unrouted one, call with the original then with the rewritten operation) x handler scripts (always ok, fail n times then ok, always fail, refuse the unmodified message, alternate) x initial operation (two routed to distinct handlers, one unrouted) x {client chain, server message chain, server batch item chain}, plus random chains of length 4..8 of random programs; every group of requests is run sequentially and then concurrently from 8 goroutines sharing the chain; distinct = distinct line; nontrivial = chain with at least two stages or a stage calling next other than once",
 		Run:  runMw,
 	})
 }
@@ -1316,15 +1674,16 @@ type mwGroup struct {
 	kind     string
 	chainSrc string
 	cases    []*mwCase
+	extras   bool // also run the registration-shape and library-middleware variants of this chain
 }
 
 // mwRunGroup runs the requests of one chain on ONE real chain object: sequentially (these answers
 // are the correspondence cases), then all of them again concurrently.
-func mwRunGroup(ctx *Ctx, g *mwGroup) {
+func mwRunGroup(ctx *Ctx, g *mwGroup, idx int) {
 	if len(g.cases) == 0 {
 		return
 	}
-	ch, err := mwBuild(g.kind, g.cases[0].chain)
+	ch, err := mwBuild(g.cases[0], mwShapeDefault, 0)
 	if err != nil {
 		ctx.Res.Fail("mw: cannot build chain " + g.chainSrc + ": " + err.Error())
 		return
@@ -1334,12 +1693,12 @@ func mwRunGroup(ctx *Ctx, g *mwGroup) {
 	for i, cs := range g.cases {
 		line := cs.line()
 		ctx.current = line
-		answer, rec, final, p := ch.run(cs, false, false)
+		answer, rec, finals, p := ch.run(cs, false, false)
 		seq[i] = answer
-		mwOracle(ctx, cs, line, answer, rec, final, p)
-		nontrivial := len(cs.chain) >= 2
+		mwOracle(ctx, cs, line, answer, rec, finals, p)
+		nontrivial := len(cs.chain)+len(cs.ichain) >= 2 || len(cs.items) >= 2
 		rewrites := false
-		for _, st := range cs.chain {
+		for _, st := range append(append([]mwStage{}, cs.chain...), cs.ichain...) {
 			k := 0
 			for _, a := range st.body {
 				if a.op == "c" || a.op == "f" {
@@ -1355,15 +1714,24 @@ func mwRunGroup(ctx *Ctx, g *mwGroup) {
 		}
 		ctx.Add(line, answer, nontrivial, "C19")
 		ctx.Res.Count("mw.kind=" + cs.kind)
-		ctx.Res.Count(fmt.Sprintf("mw.len=%d", min(len(cs.chain), 9)))
+		ctx.Res.Count(fmt.Sprintf("mw.len=%d", min(len(cs.chain)+len(cs.ichain), 9)))
 		ctx.Res.Count(fmt.Sprintf("mw.handler-runs=%s", mwBucket(rec.calls)))
 		ctx.Res.Count(fmt.Sprintf("mw.initial-op=%d", cs.m0.op))
+		if cs.kind == "srvitems" {
+			ctx.Res.Count(fmt.Sprintf("mw.batch-items=%d", min(len(cs.items), 6)))
+		}
 		if rewrites {
 			ctx.Res.Count("mw.chain-rewrites-operation")
 		}
 		for _, e := range rec.events {
 			if e.k == 'K' && e.m.op != cs.m0.op {
 				ctx.Res.Count("mw.handler-ran-on-rewritten-operation")
+				break
+			}
+		}
+		for _, e := range rec.events {
+			if e.k == 'K' && cs.kind == "srvmsg" && e.m.tok != cs.m0.tok {
+				ctx.Res.Count("mw.handler-ran-on-substituted-message")
 				break
 			}
 		}
@@ -1414,6 +1782,126 @@ func mwRunGroup(ctx *Ctx, g *mwGroup) {
 	if ch.net != nil {
 		concurrently(true)
 	}
+	if g.extras {
+		mwShapes(ctx, g, seq, idx)
+		mwLibVariants(ctx, g, idx)
+	}
+}
+
+// mwShapes: the same stages registered in another way must give the same chain.
+func mwShapes(ctx *Ctx, g *mwGroup, seq []string, idx int) {
+	shapes := []int{mwShapeVariadic, mwShapeSplit, mwShapeThree}
+	if g.kind == "client" {
+		shapes = append(shapes, mwShapeClone, mwShapeCluster)
+	}
+	shape := shapes[idx%len(shapes)]
+	name := []string{"default", "variadic-or-one-per-stage", "split-in-two-calls", "clone", "dial-cluster", "three-calls"}[shape]
+	ctx.current = g.cases[0].line() + " (registration shape " + name + ")"
+	ch, p := guard("mw-build", func() *mwChain {
+		c, err := mwBuild(g.cases[0], shape, idx/len(shapes))
+		if err != nil {
+			ctx.Res.Fail("mw: cannot build chain " + g.chainSrc + " in shape " + name + ": " + err.Error())
+			return nil
+		}
+		return c
+	})
+	if p != "" {
+		ctx.Res.Violate(report.Violation{Property: "C19", Oracle: "no-panic", Key: "mw:" + g.kind + ":registration-panic " + panicKey(p),
+			Detail: "registering the middlewares (" + name + ") panicked: " + p, Line: g.cases[0].line()})
+		return
+	}
+	if ch == nil {
+		return
+	}
+	defer ch.close()
+	for i, cs := range g.cases {
+		if got, _, _, _ := ch.run(cs, false, false); got != seq[i] {
+			ctx.Res.Violate(report.Violation{Property: "C19", Oracle: "registration-shape", Key: "mw:" + cs.kind + ":registration-shape-differs:" + name,
+				Detail: "same stages registered as " + name + ": " + mwClip(got) + " ; registered the default way: " + mwClip(seq[i]), Line: cs.line()})
+		}
+		if ch.net != nil && shape != mwShapeVariadic {
+			if got, _, _, _ := ch.run(cs, false, true); got != seq[i] {
+				ctx.Res.Violate(report.Violation{Property: "C19", Oracle: "registration-shape", Key: "mw:" + cs.kind + ":registration-shape-differs:" + name + ":real-transport",
+					Detail: "same stages registered as " + name + ", real transport: " + mwClip(got) + " ; default: " + mwClip(seq[i]), Line: cs.line()})
+			}
+		}
+		ctx.Res.Count("mw.registration-shape=" + name)
+	}
+}
+
+// mwLibVariants: the library's own middlewares inserted between the instrumented stages must behave as
+// documented: call next exactly once with what they received (the reference interpreter mwLibRef).
+func mwLibVariants(ctx *Ctx, g *mwGroup, idx int) {
+	var libs []string
+	switch g.kind {
+	case "client":
+		libs = []string{"cdebug", "timeout", "corr", "timeout0"}
+	case "srvmsg", "srvboth":
+		libs = []string{"sdebug"}
+	default:
+		return
+	}
+	lib := libs[idx%len(libs)]
+	base := g.cases[0]
+	pos := (idx / len(libs)) % (len(base.chain) + 1)
+	withLib := func(cs *mwCase) *mwCase {
+		c := *cs
+		c.chain = append(append(append([]mwStage{}, cs.chain[:pos]...), mwStage{lib: lib}), cs.chain[pos:]...)
+		return &c
+	}
+	ctx.current = base.line() + fmt.Sprintf(" (library middleware %s at position %d)", lib, pos)
+	ch, err := mwBuild(withLib(base), mwShapeDefault, 0)
+	if err != nil {
+		ctx.Res.Fail("mw: cannot build chain with " + lib + ": " + err.Error())
+		return
+	}
+	defer ch.close()
+	for _, cs := range g.cases {
+		lc := withLib(cs)
+		line := fmt.Sprintf("# mw.lib %s@%d %s", lib, pos, cs.line())
+		got, rec, finals, p := ch.run(lc, false, false)
+		viol := func(key, detail string) {
+			ctx.Res.Violate(report.Violation{Property: "C19", Oracle: "library-middleware", Key: "mw:" + cs.kind + ":" + lib + ":" + key, Detail: detail, Line: line})
+		}
+		if p != "" {
+			viol("panic "+panicKey(p), "the chain panicked: "+p)
+			continue
+		}
+		wantR, wantEv, _ := mwReference(lc, 0)
+		if want := mwRender(wantR, wantEv); want != got {
+			viol("not-a-single-faithful-call", "the library's "+lib+" between the stages: nested composition with a middleware that calls next exactly once with what it received gives "+mwClip(want)+" ; the library "+mwClip(got))
+		}
+		if o, msg, _ := mwCheckNested(lc, finals, rec.events); o != "" {
+			viol("well-nested:"+o, msg)
+		}
+		if lib == "timeout" && rec.calls > 0 && !rec.sawDeadline {
+			viol("context-not-derived", "the transport was reached without the deadline kmipclient.TimeoutMiddleware must put on the context it passes on")
+		}
+		if lib == "timeout0" && rec.sawDeadline {
+			viol("context-not-passed", "TimeoutMiddleware(0) must pass the context unchanged, the transport saw a deadline")
+		}
+		ctx.Add(line, "ok", true, "C19")
+		ctx.Res.Count("mw.library-middleware=" + lib)
+	}
+	ch.probe.mu.Lock()
+	out, corr := ch.probe.debugOut.String(), ch.probe.corrCalls
+	ch.probe.mu.Unlock()
+	if (lib == "cdebug" || lib == "sdebug") && !strings.Contains(out, "Request:") {
+		reached := false
+		for _, cs := range g.cases {
+			_ = cs
+			reached = true
+		}
+		// the debug middleware is reached unless an outer stage short-circuits for every request
+		if reached && pos == 0 {
+			ctx.Res.Violate(report.Violation{Property: "C19", Oracle: "library-middleware", Key: "mw:" + g.kind + ":" + lib + ":nothing-logged",
+				Detail: "the outermost " + lib + " middleware wrote nothing", Line: "# mw.lib " + base.line()})
+		}
+	}
+	if lib == "corr" && corr != 0 {
+		ctx.Res.Violate(report.Violation{Property: "C19", Oracle: "library-middleware", Key: "mw:client:corr:overwrote-value",
+			Detail: fmt.Sprintf("CorrelationValueMiddleware generated %d values although every message carried one", corr), Line: "# mw.lib " + base.line()})
+	}
 }
 
 func mwBucket(n int) string {
@@ -1436,7 +1924,7 @@ func mwClip(s string) string {
 }
 
 // mwOracle: the C19 oracles on one real run.
-func mwOracle(ctx *Ctx, cs *mwCase, line, answer string, rec *mwRec, final mwR, panicked string) {
+func mwOracle(ctx *Ctx, cs *mwCase, line, answer string, rec *mwRec, finals []mwR, panicked string) {
 	viol := func(oracle, key, detail string) {
 		ctx.Res.Violate(report.Violation{Property: "C19", Oracle: oracle, Key: "mw:" + cs.kind + ":" + key, Detail: detail, Line: line})
 	}
@@ -1451,29 +1939,61 @@ func mwOracle(ctx *Ctx, cs *mwCase, line, answer string, rec *mwRec, final mwR, 
 	wantR, wantEv, _ := mwReference(cs, 0)
 	if want := mwRender(wantR, wantEv); want != answer {
 		key := "trace-differs"
-		if wantR != final {
+		if mwRender(wantR, nil) != mwRender(finals, nil) {
 			key = "result-differs"
 		}
 		viol("nested-composition", key, "nested composition gives "+mwClip(want)+" ; the library "+mwClip(answer))
 	}
 	// 2. the trace is one well-nested execution in registration order in which the innermost
 	//    continuation acts on the message it was given (no knowledge of the programs)
-	if o, msg := mwCheckNested(cs, final, rec.events); o != "" {
+	o, msg, hdr := mwCheckNested(cs, finals, rec.events)
+	if o != "" {
 		viol("well-nested:"+o, o, msg)
+	}
+	// 2'. … and the handlers' context reports the header of the message that is being executed
+	if hdr != "" {
+		ctx.Res.Violate(report.Violation{Property: "C19", Oracle: "handler-context-header", Key: "mw:srvmsg:handler-header-not-of-message-executed", Detail: hdr, Line: line})
 	}
 	// 3. call counts of unconditional chains
 	if p, ok := mwStraightProduct(cs); ok && p != rec.calls {
 		viol("call-count", "handler-runs", fmt.Sprintf("the handler ran %d times, the per-stage multiplicities give %d", rec.calls, p))
 	}
+	// 4. a batch: one response item per request item, every item through the whole chain
+	if cs.kind == "srvitems" && len(finals) != len(cs.items) {
+		viol("one-per-item", "item-count", fmt.Sprintf("%d response items for %d request items", len(finals), len(cs.items)))
+	}
 }
 
 func quietMwLogs() { slog.SetDefault(slog.New(slog.NewTextHandler(io.Discard, nil))) }
 
+// mwProbeHdrMode: does a handler see the header of the message a message middleware passed on?
+func mwProbeHdrMode() int {
+	mode, _ := guard("mw-probe", func() int {
+		seen := -1
+		exec := kmipserver.NewBatchExecutor()
+		exec.Use(func(next kmipserver.Next, ctx context.Context, msg *kmip.RequestMessage) (*kmip.ResponseMessage, error) {
+			return next(ctx, mwMkReq(mwMsg{2, 1}))
+		})
+		exec.Route(kmip.OperationActivate, pwFunc(func(ctx context.Context, pl kmip.OperationPayload) (kmip.OperationPayload, error) {
+			seen = mwAtoi(kmipserver.GetRequestHeader(ctx).ClientCorrelationValue)
+			return &payloads.ActivateResponsePayload{}, nil
+		}))
+		exec.HandleRequest(context.Background(), mwMkReq(mwMsg{1, 1}))
+		if seen == 2 {
+			return 1
+		}
+		return 0
+	})
+	return mode
+}
+
 func runMw(ctx *Ctx) {
 	quietMwLogs()
+	mwHdrMode = mwProbeHdrMode()
+	ctx.Res.Count(fmt.Sprintf("mw.header-mode=%d", mwHdrMode))
 	if len(ctx.Replay) > 0 {
 		for _, l := range ctx.Replay {
-			if !strings.HasPrefix(l, "mw.run ") {
+			if !strings.HasPrefix(l, "mw.run ") && !strings.HasPrefix(l, "mw.both ") && !strings.HasPrefix(l, "mw.items ") {
 				continue
 			}
 			cs, err := mwParseLine(l)
@@ -1481,18 +2001,27 @@ func runMw(ctx *Ctx) {
 				ctx.Res.Fail("replay: " + err.Error() + ": " + l)
 				continue
 			}
-			mwRunGroup(ctx, &mwGroup{kind: cs.kind, chainSrc: cs.chainSrc, cases: []*mwCase{cs}})
+			mwRunGroup(ctx, &mwGroup{kind: cs.kind, chainSrc: cs.chainSrc, cases: []*mwCase{cs}, extras: true}, 0)
 		}
 		return
 	}
+	mwEntryPoints(ctx)
 	kinds := []string{"client", "srvmsg", "srvitem"}
 	idx := 0
 	// one group = one chain, one request per handler script, with varying initial tokens / operation
-	group := func(kind, chainSrc string, cores []string) {
-		g := &mwGroup{kind: kind, chainSrc: chainSrc}
+	group := func(kind, chainSrc, ichainSrc string, cores []string, extras bool) {
+		g := &mwGroup{kind: kind, chainSrc: chainSrc, extras: extras}
 		for k, tmpl := range cores {
 			m0, c0 := mwMsg{1 + (idx+k)%7, 1 + (idx/3+k)%3}, 1+(idx+2*k)%5
-			c, err := mwNewCase(kind, chainSrc, strings.ReplaceAll(tmpl, "@", strconv.Itoa(m0.tok)), m0, c0)
+			var items []mwMsg
+			if kind == "srvitems" {
+				// 2..5 items with distinct markers, operations cycling through routed / routed / unrouted
+				n := 2 + (idx+k)%4
+				for j := 0; j < n; j++ {
+					items = append(items, mwMsg{10*(j+1) + m0.tok, 1 + (idx+j+k)%3})
+				}
+			}
+			c, err := mwNewCaseX(kind, chainSrc, ichainSrc, strings.ReplaceAll(tmpl, "@", strconv.Itoa(m0.tok)), m0, c0, items)
 			if err != nil {
 				ctx.Res.Fail("mw: " + err.Error())
 				return
@@ -1500,7 +2029,7 @@ func runMw(ctx *Ctx) {
 			g.cases = append(g.cases, c)
 		}
 		idx++
-		mwRunGroup(ctx, g)
+		mwRunGroup(ctx, g, idx)
 	}
 	// exhaustive part: every word of length maxLen over the alphabet
 	var enum func(prefix []string, maxLen, level int, cores []string)
@@ -1511,7 +2040,12 @@ func runMw(ctx *Ctx) {
 				src = strings.Join(prefix, "/")
 			}
 			for _, kind := range kinds {
-				group(kind, src, cores)
+				// registration shapes and library middlewares: every chain of length <= 2, every 5th longer one
+				group(kind, src, "-", cores, maxLen <= 2 || idx%5 == 0)
+			}
+			// the same item chain on batches of several items
+			if maxLen <= 2 || idx%3 == 0 {
+				group("srvitems", src, "-", cores, maxLen <= 2)
 			}
 			return
 		}
@@ -1529,9 +2063,43 @@ func runMw(ctx *Ctx) {
 	if ctx.Thor {
 		enum(nil, 4, 0, mwCores(false))
 	}
+	// both server chains installed: every pair (message chain of length <= 2, item chain of length <= 2)
+	// over the small alphabet (thorough: the quick alphabet)
+	bothLevel := 0
+	if ctx.Thor {
+		bothLevel = 1
+	}
+	var words func(maxLen, first int) []string
+	words = func(maxLen, first int) []string {
+		out := []string{"-"}
+		var rec func(prefix []string)
+		rec = func(prefix []string) {
+			if len(prefix) > 0 {
+				out = append(out, strings.Join(prefix, "/"))
+			}
+			if len(prefix) == maxLen {
+				return
+			}
+			for _, p := range mwAlphabet(first+len(prefix), bothLevel) {
+				rec(append(append([]string{}, prefix...), p))
+			}
+		}
+		rec(nil)
+		return out
+	}
+	mwords, iwords := words(ctx.N(1, 2), 1), words(ctx.N(1, 2), 5)
+	for _, mc := range mwords {
+		for _, ic := range iwords {
+			if mc == "-" || ic == "-" {
+				continue // one chain only: covered above
+			}
+			group("srvboth", mc, ic, mwCores(false), idx%4 == 0)
+		}
+	}
 	// random longer chains of random programs
 	r := ctx.R
 	n := ctx.N(400, 6000)
+	allKinds := []string{"client", "srvmsg", "srvitem", "srvitems", "srvboth"}
 	for i := 0; i < n; i++ {
 		l := 4 + r.Intn(5)
 		multi := 0
@@ -1555,7 +2123,7 @@ func runMw(ctx *Ctx) {
 			ctx.Res.Count("mw.random-skipped-too-long")
 			continue
 		}
-		kind := kinds[i%3]
+		kind := allKinds[i%5]
 		nOuts := r.Intn(4)
 		var outs []string
 		for k := 0; k < nOuts; k++ {
@@ -1565,7 +2133,12 @@ func runMw(ctx *Ctx) {
 		if len(outs) > 0 {
 			script = strings.Join(outs, ",")
 		}
-		group(kind, src, []string{script + ":" + rng.Pick(r, []string{"o5", "e4"}) + ":-", "-:o5:@", "e1,e2:o5:-"})
+		msrc, isrc := src, "-"
+		if kind == "srvboth" {
+			cut := 1 + r.Intn(l-1)
+			msrc, isrc = strings.Join(stages[:cut], "/"), strings.Join(stages[cut:], "/")
+		}
+		group(kind, msrc, isrc, []string{script + ":" + rng.Pick(r, []string{"o5", "e4"}) + ":-", "-:o5:@", "e1,e2:o5:-"}, i%4 == 0)
 		ctx.Res.Count("mw.random-chains")
 	}
 }
